@@ -78,10 +78,17 @@ class KernelX(Kernel):
                     return Cond([x - y - 1], [y - x])
                 if isinstance(op, ast.GtE):
                     return Cond([x - y], [y - x - 1])
-                if isinstance(op, ast.Eq):
-                    return Cond([x - y, y - x], None)
-                if isinstance(op, ast.NotEq):
-                    return Cond(None, [x - y, y - x])
+                if isinstance(op, (ast.Eq, ast.NotEq)):
+                    # the negation of an equality is a disjunction, unless one side of it is already excluded
+                    # by what is known on this path (N == 0 for a length N: the other outcome is N >= 1)
+                    ne = None
+                    if prove.entails_ge(st, x - y):
+                        ne = [x - y - 1]
+                    elif prove.entails_ge(st, y - x):
+                        ne = [y - x - 1]
+                    if isinstance(op, ast.Eq):
+                        return Cond([x - y, y - x], ne)
+                    return Cond(ne, [x - y, y - x])
             # opaque comparison: a named boolean flag so that repeated tests stay correlated
             return self._flag(node, st)
         if isinstance(node, ast.Compare):
